@@ -124,6 +124,27 @@ def one_model(ctx, script, spec, rng, solved):
     # default flags
     if list(m.to_dataframe().columns) != [x for x in m.names if not x.startswith('_')] + ['status', 'iterations']:
         ctx.violation('export-columns', 'default to_dataframe() columns are not variables + status + iterations', {'script': script, 'span_kind': spec.kind})
+    # ---- the table holds the values of the moment of the export: a later in-place change of the model is not in it ----
+    df = m.to_dataframe(include_internal=True)
+    image = df.copy(deep=True)
+    backup = {nm: m.__dict__['_' + nm].copy() for nm in m.__dict__['index']}
+    for nm in m.__dict__['index']:
+        arr = m.__dict__['_' + nm]
+        if arr.dtype.kind in 'fi':
+            arr += 1
+        elif arr.dtype.kind == 'b':
+            arr[:] = ~arr
+        elif arr.dtype.kind == 'U':
+            arr[:] = 'Z'
+    ctx.count('export_snapshots_compared')
+    same_after = all(col_equal(df[c], image[c].values) is None for c in image.columns) and list(df.columns) == list(image.columns)
+    for nm, arr in backup.items():
+        m.__dict__['_' + nm][:] = arr
+    if not same_after:
+        bad = [c for c in image.columns if col_equal(df[c], image[c].values) is not None]
+        ctx.violation('export-aliases-model', f'to_dataframe() on {spec.kind}: after the export, changing the model in place changed the exported table (columns {bad[:4]})',
+                      {'script': script, 'span_kind': spec.kind, 'n': n, 'solved': solved})
+        return
     # ---- import ---------------------------------------------------------------------------------
     data_cols = list(Model.NAMES)
     df = m.to_dataframe(status=False, iterations=False)
